@@ -153,22 +153,30 @@ def parse_trace(lines):
     out = {"params": None, "start": None, "events": [], "states": [], "final": None, "complete": False}
     pend = None
     for ln in lines:
-        if ln.startswith("p "):
-            out["params"] = tuple(int(x) for x in ln[2:].split())
-        elif ln.startswith("c "):
-            out["start"] = ln[2:]
-        elif ln.startswith("m "):
-            parts = ln.split(" ")
-            pend = (int(parts[1]), parts[2] if len(parts) > 2 and parts[2] else " ")
-        elif ln.startswith("s "):
-            parts = ln.split(" ", 4)
-            if len(parts) < 5 or pend is None:
-                break   # truncated line of a killed run
-            step, cmp_, bored, S = int(parts[1]), int(parts[2]), int(parts[3]), parts[4]
-            out["events"].append((pend[0], pend[1], cmp_))
-            out["states"].append((step, cmp_, bored, S))
-            pend = None
-        elif ln.startswith("f "):
-            out["final"] = ln[2:]
-            out["complete"] = True
+        try:
+            if ln.startswith("p "):
+                vals = tuple(int(x) for x in ln[2:].split())
+                if len(vals) != 5:
+                    break
+                out["params"] = vals
+            elif ln.startswith("c "):
+                out["start"] = ln[2:]
+            elif ln.startswith("m "):
+                parts = ln.split(" ")
+                if len(parts) != 3 or len(parts[2]) != 1:
+                    break   # truncated line of a killed run
+                pend = (int(parts[1]), parts[2])
+            elif ln.startswith("s "):
+                parts = ln.split(" ", 4)
+                if len(parts) < 5 or pend is None:
+                    break
+                step, cmp_, bored, S = int(parts[1]), int(parts[2]), int(parts[3]), parts[4]
+                out["events"].append((pend[0], pend[1], cmp_))
+                out["states"].append((step, cmp_, bored, S))
+                pend = None
+            elif ln.startswith("f "):
+                out["final"] = ln[2:]
+                out["complete"] = True
+        except ValueError:
+            break
     return out
